@@ -24,6 +24,22 @@ CHECKS = {
         note='Trusts vlib/refgamma.py; conventions the papers leave open (largest admissible lag, truncation of the drho sum) follow the documentation.'),
 }
 
+CHECKS['C03'] = dict(
+    technique='property-based testing (Hypothesis): metamorphic relations (fft, relabelling, renaming, shift/scale) and a model-based RuleBasedStateMachine over call histories',
+    level='exploration', design='DESIGN.md 4/C03',
+    text='Metamorphic relations on generated observables (fft on/off, i->a*i+b per ensemble, replica/ensemble renaming and argument permutation, '
+         'shift, scale over 36 decades) plus a traced rule-based state machine whose model holds the class dictionaries and global defaults: after every '
+         'gamma_method call the data are bit-identical, the results equal the stateless reference analysis with the model\'s effective parameters, a '
+         'repeated call is bit-identical, and arithmetic on analysed objects equals arithmetic on rebuilt never-analysed copies.',
+    note='Uses ref_gamma both as tie detector and as the stateless analysis in the history model; window ties are skipped and counted.')
+CHECKS['C04'] = dict(
+    technique='property-based testing (Hypothesis): RuleBasedStateMachine with a structural invariant checked on every returned object; generated closure table and malformed requests',
+    level='exploration', design='DESIGN.md 4/C04',
+    text='Operation histories (constructors, arithmetic with Obs/CObs/int/float/complex/ndarray in both orders, elementary functions, reweight, correlate, '
+         'merge_obs, json/dobs/pickle/jackknife round trips, fits, roots) with the well-formedness predicate evaluated after every step; a generated closure '
+         'table for + - * / ** over operand kinds; 17 kinds of malformed construction requests that must raise.',
+    note='The predicate (vlib/wellformed.py) is a transcription of the statement; exceptions of non-arithmetic operations inside histories are counted, not judged.')
+
 PENDING_REASON = 'check under construction in this build phase; not claimed until its quick tier is silent on the unchanged tree'
 
 
